@@ -292,7 +292,11 @@ func (w *world) ask(ops []Op, obs string) oracleAns {
 		hx.Fatalf("query shorter than the oracle base")
 	}
 	t0 := time.Now()
-	l := w.or.Ask(opsLine(ops[w.baseLen:])+" # "+obs, 6)
+	pre := ""
+	if obs == "sync" {
+		pre, obs = "sync ", "?"
+	}
+	l := w.or.Ask(pre+opsLine(ops[w.baseLen:])+" # "+obs, 6)
 	tOracle += time.Since(t0)
 	a := oracleAns{}
 	a.res = strings.Fields(strings.TrimPrefix(l[0], "res"))
@@ -347,10 +351,20 @@ func classify(a oracleAns, obs string) string {
 		return m
 	}
 	o, la, lb := set(obs), set(a.allowedA), set(a.allowedB)
+	lost, lostZero := 0, 0
 	for k, n := range la {
 		if o[k] < n {
-			return "lost-acked"
+			lost++
+			if strings.HasPrefix(k, "0.") {
+				lostZero++
+			}
 		}
+	}
+	if lost > 0 && lost == lostZero {
+		return "height0-dropped"
+	}
+	if lost > 0 {
+		return "lost-acked"
 	}
 	extra, missing := 0, 0
 	for k, n := range lb {
@@ -400,7 +414,10 @@ func (w *world) checkImage(ops []Op, img string, kind string, cont bool, altCras
 	w.c.Hist["image:"+kind]++
 	if a.pred != "1" {
 		cl := classify(a, obs)
-		w.c.Violation(cl+":"+kind, fmt.Sprintf("image %s of history [%s]: reopen gave %s, allowed %s | %s%s", kind, short(opsLine(ops)), short(obs), short(a.allowedA), short(a.allowedB), errStr(err)), rep(), false)
+		if cl != "height0-dropped" {
+			cl += ":" + kind
+		}
+		w.c.Violation(cl, fmt.Sprintf("image %s of history [%s]: reopen gave %s, allowed %s | %s%s", kind, short(opsLine(ops)), short(obs), short(a.allowedA), short(a.allowedB), errStr(err)), rep(), false)
 	} else if !intact {
 		w.c.Violation("payload-changed:"+kind, fmt.Sprintf("image %s: an entry came back with a different payload", kind), rep(), false)
 	} else if obs != a.model {
@@ -896,8 +913,7 @@ func (w *world) crashHere(o Op) bool {
 // sync compares the live path with the model: return codes, log files, watermark, LoadAllEntries.
 func (w *world) sync(where string) {
 	w.checks++
-	obs := "?"
-	a := w.ask(w.ops, obs)
+	a := w.ask(w.ops, "sync")
 	for i, r := range w.rets {
 		m := a.res[i]
 		okm := m == "ok"
